@@ -1,13 +1,75 @@
-//! C17 — not implemented yet.
+//! C17 — on-start-up trigger rolls at most once, on the first record, if big enough.
+//! Real code: `RollingFileAppender` + `CompoundPolicy(OnStartUpTrigger, roller)` over pre-populated
+//! files; sequential histories with restarts, and 8 threads released by a barrier for the first
+//! append with the critical-section amplifier. Case format and executor are those of C05.
+use crate::c05::{self, Case, RollSpec, TrigChoice, TrigSpec};
+use crate::c04::RecSpec;
+use crate::proto::*;
 use crate::rng::Rng;
 
-pub fn gen(_rng: &mut Rng, _n: usize, _thorough: bool, _emit: &mut dyn FnMut(String)) {}
+const MINS: &[u64] = &[0, 1, 5, 4096];
 
-pub fn exec(_fields: &[&str]) -> String {
-    "unimplemented".to_owned()
+pub fn gen(rng: &mut Rng, n: usize, thorough: bool, emit: &mut dyn FnMut(String)) {
+    // deterministic block: min × {absent, 0, min-1, min, min+1} × mode × roller
+    for &min in MINS {
+        let mut pres = vec![None, Some(0), Some(min), Some(min + 1)];
+        if min > 0 {
+            pres.push(Some(min - 1));
+        }
+        for pre in pres {
+            for append in [true, false] {
+                for roll in [RollSpec::Delete, RollSpec::Fw { base: 1, count: 2, pat: 0 }, RollSpec::Fw { base: 0, count: 3, pat: 2 }] {
+                    let pre_arch = match &roll {
+                        RollSpec::Fw { base, .. } => vec![(*base, 3u64), (*base + 1, 4u64)],
+                        RollSpec::Delete => vec![],
+                    };
+                    let case = Case {
+                        append,
+                        pre_active: pre,
+                        pre_arch,
+                        trig: TrigSpec::Startup(min),
+                        roll: roll.clone(),
+                        clock0: 1_700_000_000,
+                    };
+                    let ops = vec![
+                        RecSpec::Bin { id: 1, sizes: vec![6] }.render(),
+                        RecSpec::Bin { id: 2, sizes: vec![min.max(1)] }.render(),
+                        RecSpec::Bin { id: 3, sizes: vec![0] }.render(),
+                        "r".to_owned(),
+                        RecSpec::Bin { id: 4, sizes: vec![2, 3] }.render(),
+                        RecSpec::Bin { id: 5, sizes: vec![1] }.render(),
+                        "r".to_owned(),
+                        "r".to_owned(),
+                        RecSpec::Text { id: 6, text: "héllo".to_owned() }.render(),
+                    ];
+                    emit(format!("seq\t{}\t{}", case.render(), enc_list(",", &ops)));
+                    // the first records arrive simultaneously from 8 threads
+                    let threads: Vec<String> = (0..8u64)
+                        .map(|t| {
+                            (0..2u64)
+                                .map(|s| RecSpec::Bin { id: (t + 1) * 65536 + s, sizes: vec![8 + t, s * 1020] }.render())
+                                .collect::<Vec<_>>()
+                                .join(",")
+                        })
+                        .collect();
+                    emit(format!("conc\t{}\t{}\t{}", case.render(), (min + pre.unwrap_or(0)) % 3, threads.join("|")));
+                }
+            }
+        }
+    }
+    for _ in 0..n {
+        emit(c05::gen_seq_case(rng, thorough, TrigChoice::Startup));
+    }
+    for _ in 0..(if thorough { n / 5 } else { n / 15 }).max(4) {
+        emit(c05::gen_conc_case(rng, thorough, TrigChoice::Startup));
+    }
 }
 
-/// child-process entry point (`verif-harness child c17 …`), for checks that need process-global state
+pub fn exec(fields: &[&str]) -> String {
+    c05::exec(fields)
+}
+
+/// child-process entry point (`verif-harness child c17 …`); not needed by this property
 pub fn child(_args: &[String]) -> i32 {
     2
 }
